@@ -1295,7 +1295,7 @@ func runC10(p *core.Prog, r *core.Result) {
 					}
 					return false
 				}
-				for _, f := range xfacts(p, statCall) {
+				for _, f := range append(xfacts(p, statCall), errHelperFacts(p, statCall)...) {
 					b, ok := f.Cond.(*ssa.BinOp)
 					if !ok || !((b.Op == token.EQL && f.Val) || (b.Op == token.NEQ && !f.Val)) {
 						continue
@@ -1840,7 +1840,8 @@ func runC11(p *core.Prog, r *core.Result) {
 				r.Unk("R11.1", construct, p.InstrPos(ret), "cannot find the Version of the returned module.Version")
 				continue
 			}
-			for _, verV := range verVs {
+			var collect func(verV ssa.Value, depth int)
+			collect = func(verV ssa.Value, depth int) {
 				for v := range core.BackwardSlice(verV, core.SliceOpts{}) {
 					if s, ok := core.ConstString(v); ok {
 						if _, isConst := v.(*ssa.Const); isConst {
@@ -1853,7 +1854,32 @@ func runC11(p *core.Prog, r *core.Result) {
 							consts[s] = true
 						}
 					}
+					// the result of a selection helper of the package (highestVersion(candidates, "none", eligible)):
+					// what its results are computed from, its parameters standing for the arguments given here
+					if hc, ok := v.(*ssa.Call); ok && depth < 2 {
+						if h := core.Callee(hc); h != nil && h.Blocks != nil && h.Pkg == fn.Pkg {
+							for _, hr := range core.ReturnsOf(h) {
+								for _, hv := range core.RetVals(hr) {
+									for x := range core.BackwardSlice(hv, core.SliceOpts{}) {
+										if s, ok := core.ConstString(x); ok {
+											if _, isConst := x.(*ssa.Const); isConst {
+												consts[s] = true
+											}
+										}
+										if prm, ok := x.(*ssa.Parameter); ok && prm.Parent() == h {
+											if i := paramIndex(h, prm); i >= 0 && i < len(hc.Call.Args) {
+												collect(hc.Call.Args[i], depth+1)
+											}
+										}
+									}
+								}
+							}
+						}
+					}
 				}
+			}
+			for _, verV := range verVs {
+				collect(verV, 0)
 			}
 			var cl []string
 			for s := range consts {
